@@ -14,7 +14,7 @@ theorem sk_gasOrFail (h : KeptB fl s0 s) (c : Option Nat) : SKeep fl s0 T (gasOr
   unfold gasOrFail
   cases c with
   | some x => exact sk_mono (sk_gasCharge h x) (fun _ _ _ _ => trivial)
-  | none => exact .halt h
+  | none => exact .halt h (by decide)
 
 /-- `gas_or_fail!` of a cost of at least 1: the flag is set -/
 theorem sk_gasOrFail1 (h : KeptB fl s0 s) (c : Option Nat) (hc : ∀ x, c = some x → 1 ≤ x) :
@@ -22,7 +22,7 @@ theorem sk_gasOrFail1 (h : KeptB fl s0 s) (c : Option Nat) (hc : ∀ x, c = some
   unfold gasOrFail
   cases c with
   | some x => exact sk_mono (sk_gasCharge1 h x (hc x rfl)) (fun _ _ _ _ => trivial)
-  | none => exact .halt h
+  | none => exact .halt h (by decide)
 
 theorem sk_refund (h : KeptB fl s0 s) (r : Int) : SKeep fl s0 T (refund r s) :=
   sk_modifyS h _ ⟨rfl, rfl, Nat.le_refl _⟩
@@ -39,13 +39,13 @@ theorem sk_popN (h : KeptB fl s0 s) (k : Nat) : SKeep fl s0 T (popN k s) := by
   obtain ⟨d, r⟩ := p
   cases r with
   | ok vs => exact .ok (h.trans ⟨rfl, rfl, Nat.le_refl _⟩) trivial
-  | err e => exact .halt h
+  | err e => exact .halt h (by cases e <;> decide)
   | _ => exact .fault
 
 theorem sk_popTop (h : KeptB fl s0 s) (k : Nat) : SKeep fl s0 T (popTop k s) := by
   unfold popTop
   split
-  · exact .halt h
+  · exact .halt h (by decide)
   · generalize Stack.popNUnsafe (k - 1) s.stack = p
     obtain ⟨d, r⟩ := p
     cases r with
@@ -72,7 +72,7 @@ theorem sk_push (h : KeptB fl s0 s) (v : Nat) : SKeep fl s0 T (push v s) := by
   obtain ⟨d, r⟩ := p
   cases r with
   | ok x => exact .ok (h.trans ⟨rfl, rfl, Nat.le_refl _⟩) trivial
-  | err e => exact .halt h
+  | err e => exact .halt h (by cases e <;> decide)
   | _ => exact .fault
 
 theorem sk_stackCall (h : KeptB fl s0 s) (f : List Nat → List Nat × Stack.Res Unit) : SKeep fl s0 T (stackCall f s) := by
@@ -81,7 +81,7 @@ theorem sk_stackCall (h : KeptB fl s0 s) (f : List Nat → List Nat × Stack.Res
   obtain ⟨d, r⟩ := p
   cases r with
   | ok x => exact .ok (h.trans ⟨rfl, rfl, Nat.le_refl _⟩) trivial
-  | err e => exact .halt h
+  | err e => exact .halt h (by cases e <;> decide)
   | _ => exact .fault
 
 theorem sk_stackCallAdv (h : KeptB fl s0 s) (f : List Nat → List Nat × Stack.Res Unit) (n : Nat) :
@@ -91,14 +91,15 @@ theorem sk_stackCallAdv (h : KeptB fl s0 s) (f : List Nat → List Nat × Stack.
   obtain ⟨d, r⟩ := p
   cases r with
   | ok x => exact .ok (h.trans ⟨rfl, rfl, Nat.le_refl _⟩) trivial
-  | err e => exact .halt (h.trans ⟨rfl, rfl, Nat.le_refl _⟩)
+  | err e => exact .halt (h.trans ⟨rfl, rfl, Nat.le_refl _⟩) (by cases e <;> decide)
   | _ => exact .fault
 
-theorem sk_asUsizeOrFail (h : KeptB fl s0 s) (v : Nat) (r : IResult) : SKeep fl s0 T (asUsizeOrFail v r s) := by
+theorem sk_asUsizeOrFail (h : KeptB fl s0 s) (v : Nat) (r : IResult) (hr : RGood r) :
+    SKeep fl s0 T (asUsizeOrFail v r s) := by
   unfold asUsizeOrFail
   cases Jump.asUsizeOrFail v with
   | some x => exact sk_pure h trivial
-  | none => exact .halt h
+  | none => exact .halt h hr
 
 theorem sk_memRes {α β} (r : Memory.Res α) (k : α → Exec β) {Q : β → IState → Prop}
     (hk : ∀ a, r = .ok a → SKeep fl s0 Q (k a)) : SKeep fl s0 Q (memRes r k) := by
@@ -114,7 +115,7 @@ theorem sk_resizeMem (h : KeptB fl s0 s) (o l : Nat) : SKeep fl s0 T (resizeMem 
   have hle := resizeMemoryMacro_rem hr
   cases b with
   | true => exact .ok (h.trans ⟨rfl, rfl, hle⟩) trivial
-  | false => exact .halt h
+  | false => exact .halt h (by decide)
 
 theorem sk_liftMemWrite (h : KeptB fl s0 s) (f : Memory.SharedMemory → Memory.Res Memory.SharedMemory) :
     SKeep fl s0 T (liftMemWrite f s) := by
